@@ -8,9 +8,17 @@ theorem hardcoded_einsum_as_expected : Generated.hardcodedEinsum = TablesSpec.ex
 theorem hardcoded_plans_as_expected : Generated.hardcodedPlans = TablesSpec.expectedPlans := by rfl
 theorem gate_tables_as_expected : Generated.gateTables = TablesSpec.expectedGates := by decide
 theorem op_table_as_expected : Generated.opTable = TablesSpec.expectedOps := by rfl
+theorem contract_sites_as_expected : Generated.contractSites = TablesSpec.expectedContractSites := by rfl
+theorem kraus_check_source_as_expected : Generated.krausCheckSource = TablesSpec.expectedKrausCheckSource := by rfl
+/-- every `contract` method of the source tests the purity and picks the eigenvalue with the same `tol` -/
+theorem contract_sites_consistent : Generated.contractSites.all TablesSpec.siteConsistent = true := by
+  rw [contract_sites_as_expected]; decide
 
 end PW.Props.Tables
 #print axioms PW.Props.Tables.hardcoded_einsum_as_expected
 #print axioms PW.Props.Tables.hardcoded_plans_as_expected
 #print axioms PW.Props.Tables.gate_tables_as_expected
 #print axioms PW.Props.Tables.op_table_as_expected
+#print axioms PW.Props.Tables.contract_sites_as_expected
+#print axioms PW.Props.Tables.kraus_check_source_as_expected
+#print axioms PW.Props.Tables.contract_sites_consistent
